@@ -585,23 +585,33 @@ func c16Exec(c *Ctx, fn *ssa.Function, n int) (out c16Outcome) {
 		out.funcs = append(out.funcs, f)
 	}
 	if err != nil {
+		// An aborted run is evidence of a violation only when the interpreter SAW the
+		// well-formed input make the code fail: an index / slice bound / buffer that
+		// is too short ("would panic"), a nil dereference, an explicit panic. Every
+		// other abort is a limit of the interpreter (a construct, a library call, a
+		// branch or an index that depends on data bytes, a budget): the extraction is
+		// incomplete and the count is NOT DECIDED.
 		out.abort = err.Error()
-		out.unmodel = strings.Contains(out.abort, "is not modelled") && !strings.Contains(out.abort, "would panic")
+		observed := strings.Contains(out.abort, "would panic") || strings.Contains(out.abort, "an explicit panic is reached") ||
+			strings.Contains(out.abort, "through a nil pointer") || strings.Contains(out.abort, "of a nil pointer")
+		out.unmodel = !observed
 		return out
 	}
 	s, ok := res.(*absint.Str)
 	if !ok {
 		out.abort = fmt.Sprintf("the result is a %T, not a text", res)
+		out.unmodel = true
 		return out
 	}
 	if s.Opaque {
 		out.abort = "the returned text is not modelled: " + s.Why
-		out.unmodel = len(run.soft) > 0 || len(in.Unknown) > 0
+		out.unmodel = true
 		return out
 	}
 	toks, why := run.decode(s)
 	if why != "" {
 		out.abort = why
+		out.unmodel = true
 		return out
 	}
 	out.toks = toks
